@@ -75,10 +75,10 @@ const (
 )
 
 type aval struct {
-	k  avKind
-	b  bool
-	i  int64
-	ch byte
+	k   avKind
+	b   bool
+	i   int64
+	ch  byte
 	why string
 }
 
